@@ -136,7 +136,12 @@ func cmdFaults(args []string) {
 			name string
 			err  error
 		}{{"plain", nil}, {"EINTR", syscall.EINTR}, {"EAGAIN", syscall.EAGAIN}, {"wrapped-EINTR", fmt.Errorf("read /dev/urandom: %w", syscall.EINTR)},
-			{"EOF", io.ErrUnexpectedEOF}, {"ioEOF", io.EOF}}
+			{"EOF", io.ErrUnexpectedEOF},
+			// what a sandboxed or exhausted system may answer: no error of the source is ever a reason to go on with other bytes
+			{"ENOSYS", syscall.ENOSYS}, {"EPERM", syscall.EPERM}, {"EIO", syscall.EIO}, {"EBADF", syscall.EBADF}, {"ENOMEM", syscall.ENOMEM},
+			{"getrandom-ENOSYS", os.NewSyscallError("getrandom", syscall.ENOSYS)}, {"open-EPERM", &os.PathError{Op: "open", Path: "/dev/urandom", Err: syscall.EPERM}},
+			{"deadline", os.ErrDeadlineExceeded}, {"EACCES", syscall.EACCES}, {"ENOENT", &os.PathError{Op: "open", Path: "/dev/urandom", Err: syscall.ENOENT}},
+			{"ioEOF", io.EOF}}
 		nerr := 0
 		replay := func(mode string, k, j int, chunk []int) {
 			t := &Tape{}
@@ -174,6 +179,10 @@ func cmdFaults(args []string) {
 			replay("error-eof", k, 0, nil)
 			for _, ch := range [][]int{{1}, {2}, {3}, {1, 1, 1, 1}, {2, 1}, {1, 3}} {
 				replay("short", k, ch[0], ch)
+			}
+			// ... and reads that deliver NOTHING without an error, between the bytes of a word and in front of it
+			for _, ch := range [][]int{{1, -1, 1, -1, 1, 1}, {-1, -1, -1, -1, 4}, {2, -1, -1, -1, 2}, {-1, 4}, {-1, 1, -1, 1, -1, 1, -1, 1}} {
+				replay("short", k, 0, ch)
 			}
 		}
 		restore()
